@@ -17,6 +17,7 @@ Partial aspects
   ticks and timer expiries are environment events; the harness observes the real periods with tolerance.
 -/
 import KafkaVerif.Lemmas.GroupInv
+import KafkaVerif.Lemmas.GroupHb
 import KafkaVerif.Gen.GroupFacts
 
 namespace KV.Group.C15
@@ -297,6 +298,59 @@ theorem heartbeat_continues (c : Cfg) (s s' : St) (g : Nat) (h : step c s (.hbRe
     split at hcg
     · cases hcg; rfl
     · cases hcg
+  · cases h
+
+/-- The generation lives — and heartbeats — from its creation, not from the moment `Next` picks it up: in every reachable
+state in which `run` waits to hand the generation over (or later in its life) the heartbeat function has been started. -/
+theorem heartbeat_from_creation (c : Cfg) (s : St) (h : Reachable c s)
+    (hp : s.pc = .handing ∨ s.pc = .running) : s.cur.hb.isSome = true := by
+  apply inv3_reachable c s h
+  rcases hp with hp | hp <;> rw [hp] <;> rfl
+
+/-- the hand-over step itself is only possible with a started heartbeat function -/
+theorem handed_has_heartbeat (c : Cfg) (s s' : St) (h : Reachable c s) (g : Nat)
+    (hs : step c s (.handed g) = some s') : s.cur.hb.isSome = true := by
+  apply heartbeat_from_creation c s h
+  simp only [step] at hs
+  split at hs
+  · rename_i hc; simp at hc; exact .inl hc.1.1.2
+  · cases hs
+
+/-! ### a generation only after a successful OffsetFetch (hypothesis of C03 `start_at_committed`) -/
+
+/-- a failed OffsetFetch — any error class — makes `nextGeneration` return the error: no generation can be created next -/
+theorem failed_fetch_never_yields_generation (c : Cfg) (s s' : St) (e : Err)
+    (h : step c s (.fetchRes (some e)) = some s') :
+    (∃ m, s'.pc = .retp m (some e)) ∧ ∀ g gid m, step c s' (.gNew g gid m) = none := by
+  simp only [step] at h
+  split at h
+  · cases h
+    exact ⟨⟨_, rfl⟩, by intro g gid m; simp [step]⟩
+  · cases h
+
+/-- a generation is only created from the state reached by a successful OffsetFetch -/
+theorem generation_only_after_fetch_ok (c : Cfg) (s s' : St) (g : Nat) (gid : Int) (m : String)
+    (h : step c s (.gNew g gid m) = some s') : s.pc = .created := by
+  simp only [step] at h
+  split at h
+  · rename_i hc; simp at hc; exact hc.1.1.1
+  · cases h
+
+/-- the topic vanished (UnknownTopicOrPartition on a poll, first count ≠ 0): the watcher can only return -/
+theorem ctx_cancelled_on_topic_vanished (c : Cfg) (s s1 : St) (g t n0 : Nat) (a : Bool)
+    (hw : s.cur.watchers[t]? = some (.calling n0, a)) (hn : n0 ≠ 0)
+    (h : step c s (.watchErr g t .unknownTopic) = some s1) :
+    (s1.cur.watchers[t]?).map (·.1) = some .failed := by
+  simp only [step] at h
+  unfold onCur at h
+  split at h
+  · simp only [Option.map_eq_some_iff] at h
+    obtain ⟨cg, hcg, rfl⟩ := h
+    have hlt : t < s.cur.watchers.length := by
+      have := hw; rw [List.getElem?_eq_some_iff] at this; exact this.1
+    simp [gWatchErr, hw, hn] at hcg
+    subst hcg
+    simp [setW, hlt]
   · cases h
 
 end KV.Group.C15
